@@ -27,6 +27,7 @@ Definition round4 (n : Z) : Z := 4 * (n / 4).
 Arguments idn : simpl never.
 Arguments round4 : simpl never.
 Arguments id_time_lib : simpl never.
+Arguments id_time_enc : simpl never.
 Arguments gen_new : simpl never.
 
 Lemma new_id_closed n : 0 <= n -> new_message_id_go n 0 = idn n.
@@ -52,10 +53,9 @@ Proof.
 Qed.
 
 (* ---------- the id <-> time relation ---------- *)
-Lemma idn_time n : 0 <= n -> id_time_lib (idn n) = round4 n.
+Lemma idn_time n : 0 <= n -> id_time_enc (idn n) = round4 n.
 Proof.
-  intros Hn. unfold id_time_lib, wrap_s32, idn, round4.
-  rewrite Z.shiftr_div_pow2 by lia. change (2^32) with 4294967296.
+  intros Hn. unfold id_time_enc, idn, round4.
   Z.to_euclidean_division_equations. lia.
 Qed.
 
@@ -203,12 +203,45 @@ Qed.
 Lemma seq_run_length kinds : forall sent, length (seq_run sent kinds) = length kinds.
 Proof. induction kinds as [|k t IH]; intros sent; cbn [seq_run length]; [reflexivity|]. rewrite next_seq_closed. cbn [length]. f_equal. apply IH. Qed.
 
-(* ---------- C07: distance between the library's decoding and the specification's ---------- *)
-Lemma id_time_lib_vs_spec id :
-  let d := id_time_lib id * 4294967296 - id_time_spec_scaled id in
-  - 2650000000 * 4294967296 < d < 1650000000 * 4294967296.
+(* ---------- the library's decoding vs. the specification's reading ---------- *)
+(* MessageID.Time() is the specification's reading id / 2^32 s rounded down to a nanosecond. *)
+Lemma id_time_lib_is_spec id :
+  id_time_lib id * 4294967296 <= id_time_spec_scaled id < (id_time_lib id + 1) * 4294967296.
 Proof.
-  cbv zeta. unfold id_time_lib, id_time_spec_scaled, wrap_s32.
-  rewrite Z.shiftr_div_pow2 by lia. change (2^32) with 4294967296.
+  unfold id_time_lib, id_time_sec_go, id_time_nsec_go, id_time_spec_scaled.
+  rewrite !Z.shiftr_div_pow2 by lia. change (2^32) with 4294967296.
   Z.to_euclidean_division_equations. lia.
 Qed.
+
+Lemma id_time_lib_ge_sec id : (id / 4294967296) * 1000000000 <= id_time_lib id < (id / 4294967296 + 1) * 1000000000.
+Proof.
+  unfold id_time_lib, id_time_sec_go, id_time_nsec_go.
+  rewrite !Z.shiftr_div_pow2 by lia. change (2^32) with 4294967296.
+  Z.to_euclidean_division_equations. lia.
+Qed.
+
+(* a client id reads, under the specification's reading, at most 0.77 s before the instant
+   its low word encodes in nanoseconds (the encoder writes nanoseconds, not 2^-32 s units) *)
+Lemma enc_vs_lib n : 0 <= n -> 0 <= id_time_enc (idn n) - id_time_lib (idn n) < 770000000.
+Proof.
+  intros Hn. unfold id_time_enc, id_time_lib, id_time_sec_go, id_time_nsec_go, idn.
+  rewrite !Z.shiftr_div_pow2 by lia. change (2^32) with 4294967296.
+  Z.to_euclidean_division_equations. lia.
+Qed.
+
+Lemma gen_run_spec_reading clocks : forall st,
+  0 <= st -> Forall (fun c => 0 <= c) clocks ->
+  Forall (fun id => 0 <= id_time_enc id - id_time_lib id < 770000000) (gen_run st clocks).
+Proof.
+  induction clocks as [|c t IH]; intros st Hs Hc.
+  - simpl. constructor.
+  - inversion Hc as [|? ? Hc0 Hct]; subst. rewrite gen_run_cons.
+    pose proof (gen_step st c Hs Hc0) as G. destruct (gen_new st c) as [id st'].
+    destruct G as (G1 & G2 & G3 & G4 & _). cbn [fst snd]. subst id.
+    constructor; [apply enc_vs_lib; exact G1 | apply IH; assumption].
+Qed.
+
+Theorem gen_spec_reading : forall clocks,
+  Forall (fun c => 0 <= c) clocks ->
+  Forall (fun id => 0 <= id_time_enc id - id_time_lib id < 770000000) (gen_run gen_init clocks).
+Proof. intros. apply gen_run_spec_reading; [unfold gen_init; apply Z.le_refl | assumption]. Qed.
